@@ -155,6 +155,11 @@ Proof. exact chunk_boundary. Qed.
 Theorem C15_wiring : rate_wiring_ok = true.
 Proof. vm_compute. reflexivity. Qed.
 
+(* the build uses the library version the model was written for (go.mod, go.sum; defaults read from
+   the module cache when present): slack 10, window default 1 s, New = the atomic limiter *)
+Theorem C15_library_pinned : rate_lib_ok = true.
+Proof. vm_compute. reflexivity. Qed.
+
 (* both construction sites build the limiter iff count > 0, as ratelimit.New(count, Per(window)) *)
 Theorem C15_limiter_iff_positive : forall count window, 0 <= count ->
   site_limiter packet_rate_site count window
@@ -215,4 +220,5 @@ Print Assumptions C15_take_before_probe.
 Print Assumptions C15_delegate_unchanged.
 Print Assumptions C15_reads_free.
 Print Assumptions C15_wiring.
+Print Assumptions C15_library_pinned.
 Print Assumptions C15_limiter_iff_positive.
